@@ -210,7 +210,7 @@ module F = struct
     | LPut (t, e, it) -> Printf.printf "P %d %d %d\n" (z t) (i e) (i it)
     | LGet (t, e, it, n) -> Printf.printf "T %d %d %d %d\n" (z t) (i e) (i it) (i n)
     | LDiscard (t, n, it) -> Printf.printf "D %d %d %d\n" (z t) (i n) (i it)
-    | LRecv (t, n, it) -> Printf.printf "R %d %d %d\n" (z t) (i n) (i it)
+    | LRecv (t, n, it, _) -> Printf.printf "R %d %d %d\n" (z t) (i n) (i it)
     | LPack (t, n, pal, it) -> Printf.printf "K %d %d %d %d\n" (z t) (i n) (i pal) (i it)
     | LSel (n, o, idx) -> Printf.printf "S %d %d %d\n" (i n) (if o then 1 else 0) (i idx)
     | LDraw (n, wh, v) -> Printf.printf "W %d %d %d\n" (i n) (i wh) (z v)
@@ -255,7 +255,7 @@ module M = struct
       | "T" -> evs := LGet (zz 1, nn 2, nn 3, nn 4) :: !evs
       | "K" -> evs := LPack (zz 1, nn 2, nn 3, nn 4) :: !evs
       | "D" -> evs := LDiscard (zz 1, nn 2, nn 3) :: !evs
-      | "R" -> evs := LRecv (zz 1, nn 2, nn 3) :: !evs
+      | "R" -> evs := LRecv (zz 1, nn 2, nn 3, Z0) :: !evs
       | _ -> ()) lines;
     let esrc e = nat_of_int (try Hashtbl.find esrc_tbl (int_of_nat e) with Not_found -> -1) in
     let l = L.rev !evs in
